@@ -134,30 +134,22 @@ theorem explB_iff (env : Env) (cfg : GCfg) (nomsg : List Suppr) (f : Finding) (h
   · rintro ⟨s, hs, h1, h2, h3⟩
     exact ⟨s, hs, ⟨h1, h2⟩, (isSuppressed_matched_iff env s _ (hx s hs)).2 h3⟩
 
-/-- THE PROPERTY.  For every file matcher, every pair of suppression lists, every settings combination and every
-    sequence of findings pushed through `CppCheckLogger::reportErr`: a finding is forwarded (unaltered) iff it is
-    in the sequence and
-      * it is an `internal` bookkeeping message, or
-      * its file type reports errors, it renders to a non-empty text and no active `nomsg` suppression matches it by
-        the documented rules, or
-      * (safety mode only) it is a suppressed critical error that no matching suppression names literally.
-    Hypotheses: distinct findings render to distinct texts (or `emitDuplicates`), and no `nomsg` entry is an unpaired
-    begin/end marker (`supprExact`, see `supprExact_eq`; before the repair of `matchglob` it also excluded id / symbol
-    patterns with a `*` followed by `*` or `?`). -/
-theorem reported_iff_unsuppressed (env : Env) (cfg : GCfg) (nomsg nofail : List Suppr) (fs : List Finding)
-    (hd : cfg.emitDuplicates = true ∨ TextInj fs) (hx : ∀ s ∈ nomsg, supprExact s = true) (f : Finding) :
-    Reported (gate env cfg nomsg nofail fs).out f ↔
-      f ∈ fs ∧ (f.internal = true ∨ (f.libReports = true ∧
-        ((¬ Spec.Suppressed env cfg nomsg f ∧ f.text ≠ []) ∨
-         (cfg.safety = true ∧ f.critical = true ∧ Spec.Suppressed env cfg nomsg f ∧
-            ¬ Spec.SuppressedExplicitly env cfg nomsg f)))) := by
-  rw [gate_out, reported_outAcc env cfg nomsg fs [] hd f, passesEl_nil]
-  unfold passes
+/-- the three ways through the gate, by the documented rules: internal bookkeeping messages; reportable findings with
+    a non-empty rendering that no active `nomsg` suppression matches; (safety mode only) suppressed critical errors
+    that no matching suppression names literally -/
+def Spec.Passes (env : Env) (cfg : GCfg) (nomsg : List Suppr) (f : Finding) : Prop :=
+  f.internal = true ∨ (f.libReports = true ∧
+    ((¬ Spec.Suppressed env cfg nomsg f ∧ f.text ≠ []) ∨
+     (cfg.safety = true ∧ f.critical = true ∧ Spec.Suppressed env cfg nomsg f ∧
+        ¬ Spec.SuppressedExplicitly env cfg nomsg f)))
+
+theorem passes_iff (env : Env) (cfg : GCfg) (nomsg : List Suppr) (f : Finding) (hx : ∀ s ∈ nomsg, supprExact s = true) :
+    passes env cfg nomsg f = true ↔ Spec.Passes env cfg nomsg f := by
+  unfold passes Spec.Passes
   have h1 := supB_iff env cfg nomsg f hx
   have h2 := explB_iff env cfg nomsg f hx
   constructor
-  · rintro ⟨hm, hp⟩
-    refine ⟨hm, ?_⟩
+  · intro hp
     simp only [Bool.or_eq_true, Bool.and_eq_true, Bool.not_eq_true'] at hp
     rcases hp with hp | ⟨hl, hp⟩
     · exact Or.inl hp
@@ -170,8 +162,7 @@ theorem reported_iff_unsuppressed (env : Env) (cfg : GCfg) (nomsg nofail : List 
       · right
         refine ⟨hsa, hcr, h1.1 hs, fun hsp => ?_⟩
         rw [h2.2 hsp] at he; cases he
-  · rintro ⟨hm, hp⟩
-    refine ⟨hm, ?_⟩
+  · intro hp
     simp only [Bool.or_eq_true, Bool.and_eq_true, Bool.not_eq_true']
     rcases hp with hp | ⟨hl, hp⟩
     · exact Or.inl hp
@@ -189,6 +180,26 @@ theorem reported_iff_unsuppressed (env : Env) (cfg : GCfg) (nomsg nofail : List 
         | false => rfl
         | true => exact absurd (h2.1 hb) he
 
+/-- THE PROPERTY.  For every file matcher, every pair of suppression lists, every settings combination and every
+    sequence of findings pushed through `CppCheckLogger::reportErr` (`dfix = true`: current code; `false`: before 9e24c55):
+    a finding is forwarded (unaltered) iff it is in the sequence and passes by the documented rules.
+    Hypotheses: distinct findings render to distinct texts (or `emitDuplicates`), and no `nomsg` entry is an unpaired
+    begin/end marker (`supprExact`, see `supprExact_eq`; before the repair of `matchglob` it also excluded id / symbol
+    patterns with a `*` followed by `*` or `?`). -/
+theorem reported_iff_unsuppressed_gen (dfix : Bool) (env : Env) (cfg : GCfg) (nomsg nofail : List Suppr)
+    (fs : List Finding) (hd : cfg.emitDuplicates = true ∨ TextInj fs) (hx : ∀ s ∈ nomsg, supprExact s = true)
+    (f : Finding) :
+    Reported (gateG dfix env cfg nomsg nofail fs).out f ↔ f ∈ fs ∧ Spec.Passes env cfg nomsg f := by
+  rw [gateG_out, ← passes_iff env cfg nomsg f hx, ← passesEl_nil]
+  exact ⟨reported_outAcc_sound dfix env cfg nomsg fs [] f,
+         fun h => reported_outAcc_complete dfix env cfg nomsg fs [] hd f h.1 h.2⟩
+
+/-- … for the current code -/
+theorem reported_iff_unsuppressed (env : Env) (cfg : GCfg) (nomsg nofail : List Suppr) (fs : List Finding)
+    (hd : cfg.emitDuplicates = true ∨ TextInj fs) (hx : ∀ s ∈ nomsg, supprExact s = true) (f : Finding) :
+    Reported (gate env cfg nomsg nofail fs).out f ↔ f ∈ fs ∧ Spec.Passes env cfg nomsg f :=
+  reported_iff_unsuppressed_gen dupFixApplied env cfg nomsg nofail fs hd hx f
+
 /-- the usual configuration (no safety mode): reported ⇔ in the run ∧ (internal ∨ reportable ∧ unsuppressed) -/
 theorem reported_iff_unsuppressed_nosafety (env : Env) (cfg : GCfg) (nomsg nofail : List Suppr) (fs : List Finding)
     (hs : cfg.safety = false) (hd : cfg.emitDuplicates = true ∨ TextInj fs) (hx : ∀ s ∈ nomsg, supprExact s = true)
@@ -196,6 +207,7 @@ theorem reported_iff_unsuppressed_nosafety (env : Env) (cfg : GCfg) (nomsg nofai
     Reported (gate env cfg nomsg nofail fs).out f ↔
       f ∈ fs ∧ (f.internal = true ∨ (f.libReports = true ∧ f.text ≠ [] ∧ ¬ Spec.Suppressed env cfg nomsg f)) := by
   rw [reported_iff_unsuppressed env cfg nomsg nofail fs hd hx f]
+  unfold Spec.Passes
   constructor
   · rintro ⟨hm, hp⟩
     refine ⟨hm, ?_⟩
@@ -212,22 +224,55 @@ theorem reported_iff_unsuppressed_nosafety (env : Env) (cfg : GCfg) (nomsg nofai
 example : TextInj [{ text := "a.c:3:x".toList, id := "x".toList, stack := [("a.c".toList, 3)] },
                    { text := "a.c:4:x".toList, id := "x".toList, stack := [("a.c".toList, 4)] }] := by decide
 
-/-- the duplicate-text hypothesis is needed: the rendered text of a *suppressed* finding enters the duplicate filter,
-    so a later unsuppressed finding with the same text (template without the line: `--template='{id}'`,
-    `--suppress=x:a.c:3`, findings on lines 3 and 4) is dropped although no suppression matches it -/
+/-- soundness needs no hypothesis on the renderings: whatever is forwarded unaltered is a finding of the run that
+    passes by the documented rules (current code and repaired code) -/
+theorem reported_sound (dfix : Bool) (env : Env) (cfg : GCfg) (nomsg nofail : List Suppr) (fs : List Finding)
+    (hx : ∀ s ∈ nomsg, supprExact s = true) (f : Finding)
+    (h : Reported (gateG dfix env cfg nomsg nofail fs).out f) : f ∈ fs ∧ Spec.Passes env cfg nomsg f := by
+  rw [gateG_out] at h
+  have := reported_outAcc_sound dfix env cfg nomsg fs [] f h
+  rw [passesEl_nil, passes_iff env cfg nomsg f hx] at this
+  exact this
+
+/-- found by this check, repaired by /repo commit 9e24c55: in the code before (`gateG false`) the rendered text of a
+    *suppressed* finding entered the duplicate filter, so a later unsuppressed finding with the same text (template
+    without the line: `--template='{id}'`, `--suppress=x:a.c:3`, findings on lines 3 and 4) was dropped — nothing
+    forwarded, exit code 0 — although no suppression matches it; the current code (`gateG true`) forwards it -/
 theorem reported_duptext_counterexample :
     let env : Env := ⟨fun p f => p = f, id⟩
     let nomsg : List Suppr := [{ errorId := "x".toList, fileName := "a.c".toList, lineNumber := 3 }]
     let f3 : Finding := { text := "x".toList, id := "x".toList, stack := [("a.c".toList, 3)] }
     let f4 : Finding := { text := "x".toList, id := "x".toList, stack := [("a.c".toList, 4)] }
-    (gate env {} nomsg [] [f3, f4]).out = [] ∧ (gate env {} nomsg [] [f3, f4]).exitCode = 0 ∧
-    supB env {} nomsg f4 = false ∧ (gate env {} nomsg [] [f4]).out = [{ f := f4 }] := by
+    (gateG false env {} nomsg [] [f3, f4]).out = [] ∧ (gateG false env {} nomsg [] [f3, f4]).exitCode = 0 ∧
+    supB env {} nomsg f4 = false ∧ (gateG false env {} nomsg [] [f4]).out = [{ f := f4 }] ∧
+    (gateG true env {} nomsg [] [f3, f4]).out = [{ f := f4 }] := by
   decide
+
+/-- THE PROPERTY without any hypothesis on the renderings (code since 9e24c55): the rendering of every finding of the
+    run that passes by the documented rules is forwarded, carried by a passing finding of the run (two unsuppressed
+    findings with one rendering are still printed once — that is what the duplicate filter is for) -/
+theorem reported_texts_fixed (env : Env) (cfg : GCfg) (nomsg nofail : List Suppr) (fs : List Finding)
+    (hx : ∀ s ∈ nomsg, supprExact s = true) (f : Finding) (hm : f ∈ fs) (hp : Spec.Passes env cfg nomsg f) :
+    ∃ g ∈ fs, g.text = f.text ∧ Spec.Passes env cfg nomsg g ∧ Reported (gateG true env cfg nomsg nofail fs).out g := by
+  rw [gateG_out]
+  have hp' : passesEl env cfg nomsg [] f = true := by
+    rw [passesEl_nil]; exact (passes_iff env cfg nomsg f hx).2 hp
+  obtain ⟨g, hg, hgt, hgr⟩ := reported_outAcc_texts env cfg nomsg fs [] f hm hp'
+  have := reported_outAcc_sound true env cfg nomsg fs [] g hgr
+  rw [passesEl_nil, passes_iff env cfg nomsg g hx] at this
+  exact ⟨g, hg, hgt, this.2, hgr⟩
+
+/-- … stated for the current code -/
+theorem reported_texts (env : Env) (cfg : GCfg) (nomsg nofail : List Suppr) (fs : List Finding)
+    (hx : ∀ s ∈ nomsg, supprExact s = true) (f : Finding) (hm : f ∈ fs) (hp : Spec.Passes env cfg nomsg f) :
+    ∃ g ∈ fs, g.text = f.text ∧ Spec.Passes env cfg nomsg g ∧ Reported (gate env cfg nomsg nofail fs).out g :=
+  reported_texts_fixed env cfg nomsg nofail fs hx f hm hp
 
 /-- `--exitcode-suppressions` entries never hide anything: the forwarded findings do not depend on the `nofail` list -/
 theorem nofail_does_not_hide (env : Env) (cfg : GCfg) (nomsg nofail nofail' : List Suppr) (fs : List Finding) :
     (gate env cfg nomsg nofail fs).out = (gate env cfg nomsg nofail' fs).out := by
-  rw [gate_out, gate_out]
+  unfold gate
+  rw [gateG_out, gateG_out]
 
 /-- line-range semantics of the suppression kinds (everything that is not about the location being satisfied):
     plain = the line (or every line when none is given; the line and the next one in the `{` special case),
